@@ -190,6 +190,36 @@ R.contract(
 R.spec_funcs["getattr_of"] = lambda it, case, loc: case.fields[loc]
 R.spec_funcs["snapshot_of"] = lambda it, case: {loc: (dict(case.fields[loc]) if isinstance(case.fields[loc], dict) else None) for loc in ("query", "headers", "cookies", "path_parameters")}
 
+# ------------------------------------------------------------------------------------------------- unit phases: overrides AND configured headers go into generation
+UNIT_ = "schemathesis.engine.phases.unit:"
+
+
+def _for_operation_unit(it, obj, a, k):
+    entries = {loc: KeyedDict(Str, Str, sizes=(0, 1)).make(it, it.path.fresh(f"override_{loc}")) for loc in ("query", "headers", "cookies", "path_parameters")}
+    it.ghost["entries"] = {loc: dict(v) for loc, v in entries.items()}
+    return entries
+
+
+R.nominal_methods["spec:UnitOverride"] = {"for_operation": _for_operation_unit}
+R.contract(
+    UNIT_ + "get_strategy_kwargs",
+    prop="C14",
+    args={"ctx": Obj("spec:EngineCtx", config=Obj("spec:EngineCfg", override=OneOf(NoneT, Obj("spec:UnitOverride")), network=Obj("spec:NetworkCfg", headers=OneOf(NoneT, KeyedDict(Str, Str, sizes=(0, 1, 2)))))),
+          "operation": Opq("Operation")},
+    ghost={"entries": None},
+    ensures={
+        # every --set-* override (restricted to declared parameters) is handed to data generation as an explicit value ...
+        "every_override_reaches_generation": "implies(ctx.config.override is not None, all(loc in result and k in result[loc] and result[loc][k] == ghost('entries')[loc][k] "
+                                             "for loc in ghost('entries') for k in ghost('entries')[loc]))",
+        # ... and so is every configured header (User-Agent is the transport's), unless an override names the same header
+        "every_configured_header_reaches_generation": "implies(ctx.config.network.headers is not None, all('headers' in result and k in result['headers'] and "
+                                                      "(result['headers'][k] == ctx.config.network.headers[k] or overridden_header(k)) for k in ctx.config.network.headers if lower(k) != 'user-agent'))",
+        "nothing_else_is_made_explicit": "all(loc in ('query', 'headers', 'cookies', 'path_parameters') for loc in result)",
+    },
+    bounded_note="one override per location, up to 2 configured headers",
+)
+R.spec_funcs["overridden_header"] = lambda it, k: it.ghost["entries"] is not None and __import__("pyvc.ops", fromlist=["z_or"]).z_or(False, *[__import__("pyvc.ops", fromlist=["eq"]).eq(k, k2) for k2 in it.ghost["entries"]["headers"]])
+
 LEVEL_TEXT = ("Deductive: header precedence, override restriction (loop invariant over any number of parameters) and the token cache's double-checked lock "
               "under an explicit rely condition (cache havoced at lock acquisition) are postconditions on the real functions, discharged by z3.")
 LEVEL_NOTE = "Trusted: CaseInsensitiveDict, threading.Lock as synchronisation point (rely), frozen timer, pyvc semantics (E9). Free interleavings are not decided."
